@@ -44,33 +44,35 @@ import (
 )
 
 type swarm struct {
-	profile    string // "C44" | "C45"
-	clients    int
-	edits      int
-	imports    bool
-	dagre      bool
-	fStall     bool
-	fClose     bool
-	fDrop      bool
-	fPartial   bool
-	fSlowHS    bool
-	fPlainGet  bool
-	holdHS     bool
-	holdAdmit  bool
-	stretch    int // 0 none, 1 compile window, 2 publish window, 3 both
-	gateEditor bool
-	fDup       bool
-	fDropW     bool
-	fAddFail   bool
-	lateJoin   bool
-	extraStep  int
-	nested     bool // b.d2 imports c.d2
-	detach     bool // saves of index.d2 may drop / restore the import of b.d2
-	navigate   bool // multi-board input and a browser tab that navigates between boards (page GETs)
-	fFsErr     bool // the fsnotify Errors channel delivers errors
-	checkpoint bool // after some saves the editor pauses and the end-of-run conditions are checked
-	slowWL     bool // "slow node": one client's write loop does not get the CPU for a while
-	deafClient bool // a browser stops reading for 8-68 simulated seconds, then shutdown is requested
+	profile     string // "C44" | "C45"
+	clients     int
+	edits       int
+	imports     bool
+	dagre       bool
+	fStall      bool
+	fClose      bool
+	fDrop       bool
+	fPartial    bool
+	fSlowHS     bool
+	fPlainGet   bool
+	holdHS      bool
+	holdAdmit   bool
+	stretch     int // 0 none, 1 compile window, 2 publish window, 3 both
+	gateEditor  bool
+	fDup        bool
+	fDropW      bool
+	fAddFail    bool
+	lateJoin    bool
+	extraStep   int
+	nested      bool // b.d2 imports c.d2
+	detach      bool // saves of index.d2 may drop / restore the import of b.d2
+	navigate    bool // multi-board input and a browser tab that navigates between boards (page GETs)
+	fFsErr      bool // the fsnotify Errors channel delivers errors
+	checkpoint  bool // after some saves the editor pauses and the end-of-run conditions are checked
+	slowWL      bool // "slow node": one client's write loop does not get the CPU for a while
+	deafClient  bool // a browser stops reading for 8-68 simulated seconds, then shutdown is requested
+	holdThrough bool // holdAdmit/holdHS: the stalled handler stays stalled until close() has run as far as it gets without it
+	keepMtime   bool // some saves leave the file's modification time as it was (cp -p, rsync -t, a coarse clock)
 }
 
 type frame struct {
@@ -124,6 +126,7 @@ type world struct {
 
 	mu        sync.Mutex
 	gidName   map[uint64]string
+	lastMtime map[string]time.Time // editor only: the modification time each source has now
 	clients   []*client
 	inCompile atomic.Bool
 	quiet     atomic.Bool
@@ -419,6 +422,16 @@ func (w *world) editor() {
 			path = filepath.Join(w.dir, "c.d2")
 			data = []byte(imp2Content(ver))
 		}
+		// The modification time of a save: a simulated clock value of its own per version
+		// and step, or (keepMtime) the time the file already had.
+		mtime := func(step int) time.Time { return w.mtime(ver, step) }
+		if w.cfg.keepMtime && w.tp.Chance(1, 2, "edit.keepmtime") {
+			if old, ok := w.lastMtime[path]; ok {
+				mtime = func(int) time.Time { return old }
+				w.res.Probe("save_leaves_the_modification_time_unchanged")
+			}
+		}
+		w.lastMtime[path] = mtime(3)
 		w.saveInProgress.Store(1)
 		w.sim.Logf("editor: save %s version %d (%s)", filepath.Base(path), ver, []string{"truncate-write", "rename-over", "rename-away-create"}[style])
 		switch style {
@@ -430,7 +443,7 @@ func (w *world) editor() {
 				if err == nil {
 					f.Close()
 				}
-				os.Chtimes(path, w.mtime(ver, 1), w.mtime(ver, 1))
+				os.Chtimes(path, mtime(1), mtime(1))
 			})
 			w.kernel.Modified(ino)
 			if w.tp.Chance(1, 2, "edit.pause") {
@@ -440,7 +453,7 @@ func (w *world) editor() {
 				f, _ := os.OpenFile(path, os.O_WRONLY|os.O_APPEND, 0644)
 				f.Write(data[:cut])
 				f.Close()
-				os.Chtimes(path, w.mtime(ver, 2), w.mtime(ver, 2))
+				os.Chtimes(path, mtime(2), mtime(2))
 			})
 			w.kernel.Modified(ino)
 			if w.tp.Chance(1, 2, "edit.pause") {
@@ -450,7 +463,7 @@ func (w *world) editor() {
 				f, _ := os.OpenFile(path, os.O_WRONLY|os.O_APPEND, 0644)
 				f.Write(data[cut:])
 				f.Close()
-				os.Chtimes(path, w.mtime(ver, 3), w.mtime(ver, 3))
+				os.Chtimes(path, mtime(3), mtime(3))
 			})
 			w.kernel.Modified(ino)
 			if w.tp.Chance(1, 2, "edit.chmod") {
@@ -461,7 +474,7 @@ func (w *world) editor() {
 			old := simnotify.Ino(path)
 			w.harnessIO(func() {
 				os.WriteFile(tmp, data, 0644)
-				os.Chtimes(tmp, w.mtime(ver, 3), w.mtime(ver, 3))
+				os.Chtimes(tmp, mtime(3), mtime(3))
 			})
 			if w.tp.Chance(1, 2, "edit.pause") {
 				w.sim.Yield("editor:step")
@@ -475,7 +488,7 @@ func (w *world) editor() {
 			w.sim.Yield("editor:step") // the file is missing here
 			w.harnessIO(func() {
 				os.WriteFile(path, data, 0644)
-				os.Chtimes(path, w.mtime(ver, 3), w.mtime(ver, 3))
+				os.Chtimes(path, mtime(3), mtime(3))
 			})
 		}
 		w.saveInProgress.Store(0)
@@ -810,7 +823,7 @@ func runInBubble(hcfg harness.Config, idx int, tp *tape.Tape, dir string, res *h
 	runtime.VerifSimEnable(salt + 1)
 	defer runtime.VerifSimDisable()
 
-	w := &world{sim: sim, res: res, tp: tp, dir: dir, gidName: map[uint64]string{}, base: time.Unix(1_700_000_000, 0)}
+	w := &world{sim: sim, res: res, tp: tp, dir: dir, gidName: map[uint64]string{}, base: time.Unix(1_700_000_000, 0), lastMtime: map[string]time.Time{}}
 	w.cfg = swarm{
 		profile:    hcfg.Property,
 		clients:    1 + tp.Weighted([]int{4, 3, 2, 1, 1}, "cfg.clients"),
@@ -843,6 +856,13 @@ func runInBubble(hcfg harness.Config, idx int, tp *tape.Tape, dir string, res *h
 	w.cfg.checkpoint = tp.Chance(2, 3, "cfg.checkpoint")
 	w.cfg.slowWL = tp.Chance(1, 3, "cfg.slowwriteloop")
 	w.cfg.deafClient = tp.Chance(1, 3, "cfg.deafclient")
+	w.cfg.keepMtime = tp.Chance(1, 4, "cfg.keepmtime")
+	w.cfg.holdThrough = tp.Chance(1, 2, "cfg.holdthrough")
+	if w.cfg.keepMtime {
+		// A change that leaves the modification time alone is visible through its events
+		// only (the poll compares modification times): no event of such a run is lost.
+		w.cfg.fDropW = false
+	}
 	w.attached = w.cfg.imports
 	sim.TimeWeight = 1
 	for _, cl := range []string{"req", "compile.wait", "compile.start", "compile.bcast", "bcast.res", "bcast.clients", "ws.admit", "ws.accept", "ws.register",
@@ -862,13 +882,16 @@ func runInBubble(hcfg harness.Config, idx int, tp *tape.Tape, dir string, res *h
 	w.harnessIO(func() {
 		os.WriteFile(filepath.Join(dir, "index.d2"), []byte(w.mainContent(0, w.attached)), 0644)
 		os.Chtimes(filepath.Join(dir, "index.d2"), w.mtime(0, 3), w.mtime(0, 3))
+		w.lastMtime[filepath.Join(dir, "index.d2")] = w.mtime(0, 3)
 		if w.cfg.imports {
 			os.WriteFile(filepath.Join(dir, "b.d2"), []byte(w.impContent(0)), 0644)
 			os.Chtimes(filepath.Join(dir, "b.d2"), w.mtime(0, 3), w.mtime(0, 3))
+			w.lastMtime[filepath.Join(dir, "b.d2")] = w.mtime(0, 3)
 		}
 		if w.cfg.nested {
 			os.WriteFile(filepath.Join(dir, "c.d2"), []byte(imp2Content(0)), 0644)
 			os.Chtimes(filepath.Join(dir, "c.d2"), w.mtime(0, 3), w.mtime(0, 3))
+			w.lastMtime[filepath.Join(dir, "c.d2")] = w.mtime(0, 3)
 		}
 	})
 	w.kernel = simnotify.New(sim)
@@ -1313,9 +1336,24 @@ func (w *world) biasHandshakes() {
 	if !w.cfg.holdHS {
 		wgt = -1
 	}
+	// holdThrough (half of the runs): what was stalled when close() began stays stalled while
+	// close() itself can still move (it sits at one of its own scheduling points), and gets
+	// the CPU back once close() has returned or waits for it. Otherwise it gets the CPU back
+	// right when close() has begun.
+	closeCanMove := false
+	if w.cfg.holdThrough && w.closeBegun.Load() {
+		for _, k := range w.sim.ParkedKeys() {
+			if strings.HasPrefix(k, "close") {
+				closeCanMove = true
+			}
+		}
+	}
 	if w.signalled.Load() && !w.settling.Load() {
 		if w.closeBegun.Load() {
 			wgt = 40
+			if closeCanMove {
+				wgt = 0
+			}
 		} else if w.sim.Now()-w.signalAt < 45*time.Second {
 			wgt = 0
 		}
@@ -1335,6 +1373,9 @@ func (w *world) biasHandshakes() {
 			if w.signalled.Load() && !w.settling.Load() {
 				if w.closeBegun.Load() {
 					wgt = 60
+					if closeCanMove {
+						wgt = 0
+					}
 				} else if w.sim.Now()-w.signalAt < 45*time.Second {
 					wgt = 0
 					w.heldAdmit = true
@@ -1567,6 +1608,9 @@ func (w *world) checkC45(returned bool, get func() (error, string, time.Duration
 		case "close.begin":
 			if closeBegin < 0 {
 				closeBegin = i
+				if admitted > started+acceptFailed {
+					w.probe("close_began_while_an_admitted_client_was_still_upgrading")
+				}
 			}
 		case "close.end":
 			if closeEnd < 0 {
